@@ -63,10 +63,13 @@ class Ctx:
     def facts(self):
         """regenerate lean/NutsModel/Facts/<ID>.lean + facts/<ID>.json from /repo's working tree"""
         exe = os.path.join(self.scratch, "extract")
-        rc, out = sh(["go", "build", "-o", exe, "."], cwd=os.path.join(ROOT, "extract"))
+        # built per property from main.go + c<nn>*.go only, so properties cannot break each other's extractor
+        xd = os.path.join(ROOT, "extract")
+        srcs = ["main.go"] + sorted(os.path.basename(p) for p in glob.glob(os.path.join(xd, self.id.lower() + "*.go")))
+        rc, out = sh(["go", "build", "-o", exe] + srcs, cwd=xd)
         if rc != 0:
             raise RuntimeError("extractor build failed:\n" + out)
-        with LakeLock():
+        with LakeLock(self.id):
             rc, out = sh([exe, self.id, REPO], env={"VERIF_ROOT": ROOT})
         if rc != 0:
             self.oblige("facts:extract", False, out)
@@ -78,7 +81,7 @@ class Ctx:
 
     # ---------- lean
     def lake(self, targets, timeout=3000):
-        with LakeLock():
+        with LakeLock(self.id):
             rc, out = sh(["lake", "build"] + list(targets), cwd=LEAN, timeout=timeout)
         return rc == 0, out
 
@@ -138,7 +141,7 @@ class Ctx:
         self.oblige("no-sorry/axiom/native_decide in import closure", not hits, "; ".join(hits[:5]))
         self.theorems = thms
         if self.thorough and modules:
-            with LakeLock():
+            with LakeLock(self.id):
                 rc, out3 = sh(["lake", "env", "leanchecker"] + list(modules), cwd=LEAN, timeout=3000)
             self.oblige("leanchecker:" + ",".join(modules), rc == 0, out3[-500:])
         return thms
@@ -274,9 +277,13 @@ class Ctx:
 
 
 class LakeLock:
+    """serialises Lean builds / fact regeneration of the SAME property; different properties run concurrently"""
+    def __init__(self, pid="any"):
+        self.pid = pid
+
     def __enter__(self):
         os.makedirs(os.path.join(LEAN, ".lake"), exist_ok=True)
-        self.f = open(os.path.join(LEAN, ".lake", "verif.lock"), "w")
+        self.f = open(os.path.join(LEAN, ".lake", f"verif.{self.pid}.lock"), "w")
         fcntl.flock(self.f, fcntl.LOCK_EX)
 
     def __exit__(self, *a):
